@@ -867,13 +867,42 @@ def _is_identity_relist(prog, fi, target, value):
             src_list = defs[0].value
     if dump(src_list) != dump(ast.Attribute(value=target.value, attr=target.attr, ctx=ast.Load())):
         return False
+    n_bound, kw_bound = _partial_bound(prog, fi, fe)
     for t in prog.resolve_expr_fn(fe, value):
         if isinstance(t, FunctionInfo):
-            p = t.params()[0]
+            free = [x for x in t.params()[n_bound:] if x not in kw_bound]
+            if not free:
+                return False
+            p = free[0]  # the parameter that receives the (index, element) pair
+            # names bound once to the pair's second element: `i, e = p` / `e = p[1]`
+            second = set()
+            for st in ast.walk(t.node):
+                if isinstance(st, ast.Assign) and len(st.targets) == 1:
+                    tg, vv = st.targets[0], st.value
+                    if isinstance(tg, ast.Tuple) and len(tg.elts) == 2 and isinstance(tg.elts[1], ast.Name) and isinstance(vv, ast.Name) and vv.id == p:
+                        second.add(tg.elts[1].id)
+                    elif isinstance(tg, ast.Name) and _is_second_of(vv, p):
+                        second.add(tg.id)
+            second = {nm for nm in second if sum(1 for x in ast.walk(t.node) if isinstance(x, ast.Name) and x.id == nm and isinstance(x.ctx, ast.Store)) == 1}
             rets = [r for r in ast.walk(t.node) if isinstance(r, ast.Return)]
-            return bool(rets) and all(isinstance(r.value, ast.Subscript) and isinstance(r.value.value, ast.Name) and r.value.value.id == p
-                                      and isinstance(r.value.slice, ast.Constant) and r.value.slice.value == 1 for r in rets)
+            return bool(rets) and all(_is_second_of(r.value, p) or (isinstance(r.value, ast.Name) and r.value.id in second) for r in rets)
     return False
+
+
+def _is_second_of(e, p):
+    return isinstance(e, ast.Subscript) and isinstance(e.value, ast.Name) and e.value.id == p and isinstance(e.slice, ast.Constant) and e.slice.value == 1
+
+
+def _partial_bound(prog, fi, fe):
+    """(number of positional arguments, keyword names) already bound when `fe` is `partial(f, ...)` or a local bound once to one"""
+    if isinstance(fe, ast.Name):
+        defs = [s2 for s2 in ast.walk(fi.node) if isinstance(s2, ast.Assign) and any(isinstance(t2, ast.Name) and t2.id == fe.id for t2 in s2.targets)]
+        if len(defs) == 1:
+            fe = defs[0].value
+    if isinstance(fe, ast.Call) and isinstance(fe.func, (ast.Name, ast.Attribute)) and prog.ext_name(fe.func, fe) == "functools.partial" and fe.args:
+        n, kw = _partial_bound(prog, fi, fe.args[0])
+        return n + len(fe.args) - 1, kw | {k.arg for k in fe.keywords if k.arg}
+    return 0, set()
 
 
 def _fresh_value(prog, v, depth=0):
